@@ -57,9 +57,25 @@ class Prop:
         r = self.oracle(op, impl, model, spec)
         if r:
             return {"kind": "spec", "text": r}
-        if self.project(op, impl) != self.project(op, model):
+        if not self.agree(op, impl, model):
             return {"kind": "model", "text": "impl=%s model=%s" % (impl[:300], model[:300]), "hyp": hyp}
         return None
+
+    # Error kinds the property's statement names (None = every kind matters).  Where the model answers
+    # with a kind the statement does NOT name, the statement only says that the operation fails, so
+    # any error from the implementation agrees (a change of an unspecified error kind is not a
+    # violation); a named kind, a value, and success-vs-failure are always compared exactly.
+    named_errors = None
+
+    def agree(self, op, impl, model):
+        pi, pm = self.project(op, impl), self.project(op, model)
+        if pi == pm:
+            return True
+        if self.named_errors is not None and pi.startswith("err ") and pm.startswith("err "):
+            km = pm.split(" ")[1] if " " in pm else ""
+            if km not in self.named_errors:
+                return True
+        return False
 
     def oracle(self, op, impl, model, spec):
         return None
@@ -113,6 +129,7 @@ class C14(Prop):
 
 
 class C04(Prop):
+    named_errors = {"ZeroFill", "Bounds"}       # "report zero-fill", "report out-of-bounds"
     pid = "C04"
     title = "file views resolve RVAs through the section table"
     thm_modules = ["PeliteModel.Thm.C04"]
@@ -123,6 +140,7 @@ class C04(Prop):
 
 
 class C07(Prop):
+    named_errors = {"PeMagic"}                  # "rejected with the dedicated wrong-format error"
     pid = "C07"
     title = "headers"
     thm_modules = ["PeliteModel.Thm.C07", "PeliteModel.Thm.C07Checksum"]
@@ -141,16 +159,38 @@ class C07(Prop):
 
 
 class C05(Prop):
+    named_errors = {"Null"}                     # "a zero address always yields the null error"; read vs slice: see oracle
     pid = "C05"
     title = "VA / RVA / typed reads"
     thm_modules = ["PeliteModel.Thm.C05"]
     gens = [gen_img.gen_c05]
+
+    def begin_case(self, case):
+        self.last_slice = None
+
+    def oracle(self, op, impl, model, spec):
+        # "reading at virtual address B+r returns exactly what slicing at RVA r returns (same bytes,
+        # same error class)": the generator issues `slice k r n a` immediately followed by
+        # `read k B+r n a`; both answers come from the implementation
+        w = op.split(" ")
+        if w[0] == "slice":
+            self.last_slice = (w[1], w[3], w[4], impl, model)
+        elif w[0] == "read" and self.last_slice and self.last_slice[:3] == (w[1], w[3], w[4]):
+            k, n, a, s_impl, s_model = self.last_slice
+            self.last_slice = None
+            # only where the model says the two paths denote the same request (r in (0, SizeOfImage))
+            if s_model == model and klass(model) in ("ok", "err") and self.project(op, s_impl) != self.project(op, impl):
+                return "read at B+r answered %s but slice at r answered %s" % (impl[:150], s_impl[:150])
+        else:
+            self.last_slice = None
+        return None
 
     def nontrivial(self, op, impl):
         return impl.startswith("ok ")
 
 
 class C06(Prop):
+    named_errors = set()
     pid = "C06"
     title = "file <-> view conversion"
     thm_modules = ["PeliteModel.Thm.C06", "PeliteModel.Thm.C06RoundTrip"]
